@@ -261,3 +261,308 @@ package radius
 //@ func (pm *PolicyManager) GetPolicy
 //@   trusted reads the policy table under its own lock
 //@   modifies nothing
+
+// ---- accounting.go: the accounting manager (C08: every started session is accounted to a Stop) ----
+//
+// Observation points (function-level ghosts, updated by the `sets` clauses of the callees):
+//   acctStarts / acctStops : Accounting-Requests of that type handed to Client.SendAccounting
+//   queuedStarts / queuedStops / queuedOther : records put on the pending queue (queuePendingRecord)
+//   persists / unpersists  : calls that write / remove the persisted copy of a session
+//   persistAtStops, persistAtStarts, unpersistAtStops : value of acctStops / acctStarts when the
+//       persisted copy was last written / removed (orders the file operations against the requests)
+// The table of started sessions is am.sessions (owned by sessionsMu), the reliable-delivery queue is
+// am.pendingRecords (owned by pendingMu); the channel pendingQueue only wakes the processor up.
+
+//@ type AccountingManager
+//@   owns sessionsMu: sessions
+//@   owns pendingMu: pendingRecords
+// every session is filed under its own Acct-Session-Id
+//@   inv sesskey: forall k string :: k in self.sessions ==> self.sessions[k] != nil && self.sessions[k].SessionID == k
+// every pending record is filed under its own ID and has a request to send
+//@   inv pendkey: forall k string :: k in self.pendingRecords ==> self.pendingRecords[k] != nil && self.pendingRecords[k].ID == k && self.pendingRecords[k].Request != nil
+
+// Trusted: the eBPF counter callback only reads kernel maps; a nil error comes with counters.
+//@ functype CounterFetcher(sessionID)
+//@   modifies nothing
+//@   ensures err == nil ==> result != nil
+
+//@ func (am *AccountingManager) fetchCounters
+//@   ensures result != nil
+//@   modifies nothing
+
+// ---- persistence of the active session (file <persistPath>/sessions/<SessionID>.json) ----
+// The os / filepath / json calls have no effect on the modelled heap (library model); what the
+// callers need is WHEN the file is written / removed relative to the accounting requests, which
+// the sets clauses record (they count calls: a call = one attempt to write / remove the file).
+
+//@ func (am *AccountingManager) persistActiveSession
+//@   requires session != nil
+//@   ghost fsWrites mathint = 0
+//@   ghost fsRemoves mathint = 0
+//@   ensures fsWrites <= 1 && fsRemoves == 0
+//@   sets persists = persists + 1
+//@   sets persistAtStops = acctStops
+//@   sets persistAtStarts = acctStarts
+//@   sets persistSID = session.SessionID
+//@   sets persistStopPending = ite(session.StopPending, 1, 0)
+//@   modifies nothing
+
+//@ func (am *AccountingManager) removePersistedSession
+//@   ghost fsWrites mathint = 0
+//@   ghost fsRemoves mathint = 0
+//@   ensures fsWrites == 0 && fsRemoves == 1
+//@   sets unpersists = unpersists + 1
+//@   sets unpersistAtStops = acctStops
+//@   sets unpersistSID = sessionID
+//@   modifies nothing
+
+// ---- the reliable-delivery queue ----
+
+// the record is filed (nothing already queued is lost) with a fresh retry budget
+//@ func (am *AccountingManager) queuePendingRecord
+//@   requires req != nil
+//@   ensures exists k string :: k in am.pendingRecords && am.pendingRecords[k] != nil && am.pendingRecords[k].Request == req && am.pendingRecords[k].RetryCount == 0 && fresh(am.pendingRecords[k])
+//@   ensures forall j string :: locked(j in am.pendingRecords) ==> j in am.pendingRecords
+// whole view: exactly one key is (re)bound, every other entry is what it was
+//@   ensures exists k string :: dom(am.pendingRecords) == locked(dom(am.pendingRecords))[k := true] && am.pendingRecords[k] != nil && am.pendingRecords[k].Request == req && forall j string :: j != k ==> am.pendingRecords[j] == locked(am.pendingRecords[j])
+//@   sets queuedStops = queuedStops + ite(req.StatusType == AcctStatusStop, 1, 0)
+//@   sets queuedStarts = queuedStarts + ite(req.StatusType == AcctStatusStart, 1, 0)
+//@   sets queuedOther = queuedOther + ite(req.StatusType != AcctStatusStart && req.StatusType != AcctStatusStop, 1, 0)
+//@   modifies am.pendingRecords, am.pendingQueueDepth
+
+// ---- Accounting-Stop ----
+
+// exactly one Stop request, carrying the session's own identifiers; when the server does not
+// accept it the record is queued (never dropped)
+//@ func (am *AccountingManager) sendAccountingStop
+//@   requires session != nil && am.client != nil
+//@   ghost acctStops mathint = 0
+//@   ghost acctStarts mathint = 0
+//@   ghost queuedStops mathint = 0
+//@   ghost queuedStarts mathint = 0
+//@   ghost queuedOther mathint = 0
+//@   ensures acctStops == 1 && acctStarts == 0 && queuedStarts == 0 && queuedOther == 0
+//@   ensures err == nil ==> acctSent() && sentInt(40, 2) && queuedStops == 0
+//@   ensures err == nil && len(session.SessionID) <= 253 ==> sentStr(44, session.SessionID)
+//@   ensures err == nil && len(session.Username) <= 253 ==> sentStr(1, session.Username)
+//@   ensures err == nil && terminateCause != 0 ==> sentInt(49, terminateCause)
+//@   ensures err != nil ==> queuedStops == 1
+//@   sets acctStops = acctStops + 1
+//@   sets queuedStops = queuedStops + ite(err != nil, 1, 0)
+//@   sets stopSID = session.SessionID
+//@   modifies rad_sent, am.client.currentIdx, am.pendingRecords, am.pendingQueueDepth, am.stopFailed, am.stopTotal
+
+//@ func (am *AccountingManager) sendAccountingStopSync
+//@   requires session != nil && am.client != nil
+//@   ghost acctStops mathint = 0
+//@   ghost acctStarts mathint = 0
+//@   ghost queuedStops mathint = 0
+//@   ghost queuedStarts mathint = 0
+//@   ghost queuedOther mathint = 0
+//@   ensures acctStops == 1 && acctStarts == 0 && queuedStarts == 0 && queuedOther == 0
+//@   ensures queuedStops == 0 ==> acctSent() && sentInt(40, 2)
+//@   ensures queuedStops == 0 && terminateCause != 0 ==> sentInt(49, terminateCause)
+//@   ensures queuedStops == 0 && len(session.SessionID) <= 253 ==> sentStr(44, session.SessionID)
+//@   ensures queuedStops == 0 || queuedStops == 1
+//@   sets acctStops = acctStops + 1
+//@   sets stopSID = session.SessionID
+//@   modifies rad_sent, am.client.currentIdx, am.pendingRecords, am.pendingQueueDepth
+
+//@ func (am *AccountingManager) StopSession
+//@   requires am.client != nil
+//@   indep
+//@   ghost acctStops mathint = 0
+//@   ghost acctStarts mathint = 0
+//@   ghost queuedStops mathint = 0
+//@   ghost queuedStarts mathint = 0
+//@   ghost persists mathint = 0
+//@   ghost unpersists mathint = 0
+//@   ghost persistAtStops mathint = 0 - 1
+//@   ghost unpersistAtStops mathint = 0 - 1
+//@   ghost persistStopPending mathint = 0
+//@   ghost stopSID string = ""
+//@   ghost persistSID string = ""
+//@   ghost unpersistSID string = ""
+// never a Stop for a session that was not started (not in the table): nothing is sent, written or removed
+//@   ensures !lockedN(1, sessionID in am.sessions) ==> err != nil && acctStops == 0 && queuedStops == 0 && persists == 0 && unpersists == 0 && rad_sent_count() == old(rad_sent_count())
+// a started session gets exactly one Stop, under its own Acct-Session-Id, and no Start
+//@   ensures lockedN(1, sessionID in am.sessions) ==> err == nil && acctStops == 1 && stopSID == sessionID
+//@   ensures acctStarts == 0 && queuedStarts == 0
+// the session leaves the table in the critical section that found it (two concurrent StopSession
+// calls for one session then produce one Stop)
+// (release #1 is the one on the not-found path, #2 ends the section that found the session and deletes it)
+//@   ensures acctStops != 0 ==> unlockedN(2, sessionID !in am.sessions)
+//@   ensures lockedN(1, sessionID in am.sessions) ==> unlockedN(2, sessionID !in am.sessions)
+// persist before stop: the copy on disk is marked stop-pending before the Stop is attempted ...
+//@   ensures acctStops != 0 ==> persists == 1 && persistAtStops == 0 && persistStopPending == 1 && persistSID == sessionID
+// ... and removed only after the Stop was accepted or queued (sendAccountingStop returned)
+//@   ensures unpersists != 0 ==> unpersists == 1 && unpersistAtStops == 1 && unpersistSID == sessionID
+//@   ensures acctStops != 0 ==> unpersists == 1
+// no other session is touched
+//@   ensures forall k string :: unlockedN(1, (k in am.sessions) == lockedN(1, k in am.sessions) && am.sessions[k] == lockedN(1, am.sessions[k]))
+//@   ensures forall k string :: k != sessionID ==> unlockedN(2, (k in am.sessions) == lockedN(1, k in am.sessions) && am.sessions[k] == lockedN(1, am.sessions[k]))
+//@   modifies *
+
+// ---- Accounting-Start ----
+//@ func (am *AccountingManager) StartSession
+//@   requires session != nil && am.client != nil
+//@   indep
+//@   ghost acctStops mathint = 0
+//@   ghost acctStarts mathint = 0
+//@   ghost queuedStops mathint = 0
+//@   ghost queuedStarts mathint = 0
+//@   ghost queuedOther mathint = 0
+//@   ghost persists mathint = 0
+//@   ghost unpersists mathint = 0
+//@   ghost persistAtStarts mathint = 0 - 1
+//@   ghost persistStopPending mathint = 0 - 1
+//@   ghost persistSID string = ""
+//@   ensures session.SessionID == old(session.SessionID)
+//@   ensures old(session.SessionID) == "" ==> err != nil
+// a second StartSession for a SessionID already in the table does not start accounting twice:
+// nothing is sent, queued or written and the table keeps the first session
+//@   ensures lockedN(1, session.SessionID in am.sessions) ==> err != nil
+//@   ensures err != nil ==> acctStarts == 0 && queuedStarts == 0 && persists == 0 && rad_sent_count() == old(rad_sent_count())
+//@   ensures err != nil && session.SessionID != "" ==> unlockedN(1, dom(am.sessions) == lockedN(1, dom(am.sessions)) && vals(am.sessions) == lockedN(1, vals(am.sessions)))
+// a new session enters the table under its own id (whole view: nothing else changes) ...
+//@   ensures err == nil ==> unlockedN(2, dom(am.sessions) == lockedN(1, dom(am.sessions))[session.SessionID := true] && vals(am.sessions) == lockedN(1, vals(am.sessions))[session.SessionID := session])
+//@   ensures err == nil ==> !lockedN(1, session.SessionID in am.sessions) && !session.StopPending == !old(session.StopPending)
+// ... exactly one Start goes out with the session's own id, never a Stop ...
+//@   ensures err == nil ==> acctStarts == 1
+//@   ensures acctStops == 0 && queuedStops == 0 && queuedOther == 0 && unpersists == 0
+// ... a Start the server did not accept is queued, not dropped ...
+//@   ensures err == nil ==> (queuedStarts == 0 && acctSent() && sentInt(40, 1)) || (queuedStarts == 1)
+//@   ensures err == nil && queuedStarts == 0 && len(session.SessionID) <= 253 ==> sentStr(44, session.SessionID)
+// ... and the session is persisted whether or not the Start was accepted
+//@   ensures err == nil ==> persists == 1 && persistSID == session.SessionID
+// crash safety ("a crash injected at every persistence/transmit step"): the copy on disk exists
+// BEFORE the Start is handed to the server, otherwise a crash between the two leaves a started
+// session that no restart will ever stop
+//@   ensures err == nil ==> persistAtStarts == 0
+//@   modifies *
+
+// ---- retry of queued records ----
+// Releases of pendingMu in processPendingRecord, program order: #1 acknowledged (record removed),
+// #2 abandoned after MaxRetries failures (record removed), #3 retry scheduled (record kept).
+// record.RetryCount tells the paths apart: unchanged = acknowledged, +1 = failed attempt.
+//@ func (am *AccountingManager) processPendingRecord
+//@   requires record != nil && record.Request != nil && am.client != nil
+//@   indep
+//@   ghost acctStops mathint = 0
+//@   ghost acctStarts mathint = 0
+//@   ghost queuedStops mathint = 0
+//@   ghost queuedStarts mathint = 0
+//@   ghost queuedOther mathint = 0
+// one attempt per call, of the record's own request; nothing is re-queued under a new id
+//@   ensures acctStops == ite(record.Request.StatusType == AcctStatusStop, 1, 0) && acctStarts == ite(record.Request.StatusType == AcctStatusStart, 1, 0)
+//@   ensures rad_sent_count() <= old(rad_sent_count()) + 1
+//@   ensures queuedStops == 0 && queuedStarts == 0 && queuedOther == 0
+//@   ensures record.Request == old(record.Request) && record.ID == old(record.ID)
+//@   ensures old(record.RetryCount) < 9223372036854775807 ==> record.RetryCount == old(record.RetryCount) || record.RetryCount == old(record.RetryCount) + 1
+// a record the server acknowledged leaves the queue (and only that record)
+//@   ensures record.RetryCount == old(record.RetryCount) ==> acctSent() && unlockedN(1, dom(am.pendingRecords) == lockedN(1, dom(am.pendingRecords))[record.ID := false])
+//@   ensures record.RetryCount == old(record.RetryCount) ==> forall k string :: k != record.ID ==> unlockedN(1, am.pendingRecords[k]) == lockedN(1, am.pendingRecords[k])
+// retry budget: after a failed attempt the record stays queued iff fewer than MaxRetries attempts have failed
+//@   ensures record.RetryCount == old(record.RetryCount) + 1 && record.RetryCount >= am.config.MaxRetries ==> unlockedN(2, dom(am.pendingRecords) == lockedN(2, dom(am.pendingRecords))[record.ID := false])
+//@   ensures record.RetryCount == old(record.RetryCount) + 1 && record.RetryCount < am.config.MaxRetries ==> unlockedN(3, dom(am.pendingRecords) == lockedN(2, dom(am.pendingRecords)) && vals(am.pendingRecords) == lockedN(2, vals(am.pendingRecords)))
+// the same three facts over the state this call leaves behind (the unlockedN clauses above speak about
+// the state at a given release, whichever branch condition leads there)
+//@   ensures record.RetryCount == old(record.RetryCount) ==> record.ID !in am.pendingRecords
+//@   ensures record.RetryCount == old(record.RetryCount) + 1 && record.RetryCount >= am.config.MaxRetries ==> record.ID !in am.pendingRecords
+//@   ensures record.RetryCount == old(record.RetryCount) + 1 && record.RetryCount < am.config.MaxRetries ==> dom(am.pendingRecords) == locked(dom(am.pendingRecords)) && vals(am.pendingRecords) == locked(vals(am.pendingRecords))
+// "a Stop the server has already acknowledged is never sent again": an acknowledged record is out
+// of the queue, so a record that is no longer queued when the processor gets to it must not be sent
+//@   ensures old(record.ID !in am.pendingRecords) ==> rad_sent_count() == old(rad_sent_count()) && acctStops == 0 && acctStarts == 0
+//@   sets acctStops = acctStops + ite(record.Request.StatusType == AcctStatusStop, 1, 0)
+//@   sets acctStarts = acctStarts + ite(record.Request.StatusType == AcctStatusStart, 1, 0)
+//@   sets pendAttempts = pendAttempts + 1
+//@   modifies rad_sent, am.client.currentIdx, am.pendingRecords, am.pendingQueueDepth, am.stopTotal, am.interimTotal, am.stopAbandoned, am.stopRetries, record.RetryCount, record.LastError, record.NextRetry
+
+// one sweep: only records that were queued (and due) when the sweep looked at the queue are retried,
+// each through processPendingRecord; nothing is queued or persisted by the sweep itself
+//@ func (am *AccountingManager) retryPendingRecords
+//@   requires am.client != nil
+//@   indep
+//@   ghost pendAttempts mathint = 0
+//@   ghost queuedStops mathint = 0
+//@   ghost queuedStarts mathint = 0
+//@   ensures pendAttempts == len(toRetry)
+//@   ensures forall i int :: 0 <= i < len(toRetry) ==> lockedN(1, dom(am.pendingRecords))[toRetry[i].ID] && lockedN(1, vals(am.pendingRecords))[toRetry[i].ID] == toRetry[i]
+//@   ensures queuedStops == 0 && queuedStarts == 0
+//@   modifies *
+
+//@ loop AccountingManager.retryPendingRecords#1
+//@   invariant am.pendkey
+//@   invariant dom(am.pendingRecords) == locked(dom(am.pendingRecords)) && vals(am.pendingRecords) == locked(vals(am.pendingRecords))
+//@   invariant len(toRetry) >= 0 && forall i int :: 0 <= i < len(toRetry) ==> toRetry[i] != nil && toRetry[i].Request != nil
+//@   invariant true && forall i int :: 0 <= i < len(toRetry) ==> toRetry[i].ID in am.pendingRecords
+//@   invariant true && true && forall i int :: 0 <= i < len(toRetry) ==> am.pendingRecords[toRetry[i].ID] == toRetry[i]
+
+//@ loop AccountingManager.retryPendingRecords#2
+//@   invariant pendAttempts == ridx && queuedStops == 0 && queuedStarts == 0
+//@   invariant true && forall i int :: 0 <= i < len(toRetry) ==> locked(dom(am.pendingRecords))[toRetry[i].ID] && locked(vals(am.pendingRecords))[toRetry[i].ID] == toRetry[i]
+//@   invariant forall i int :: 0 <= i < len(toRetry) ==> toRetry[i] != nil && toRetry[i].Request != nil
+
+// ---- crash recovery: every persisted session found on start gets exactly one Stop ----
+// One iteration of loop #1 = one directory entry. fsRemoves counts os.Remove calls (the persisted
+// copy is consumed), acctStops the Stop requests handed to the client, queuedStops the Stops queued.
+// The second half of the function (pending.json -> pendingRecords) decodes into a map, which the
+// JSON model does not follow (heap havocked there): only the ghost counters are constrained after it.
+//@ func (am *AccountingManager) recoverOrphanedSessions
+//@   requires am.client != nil
+//@   indep
+//@   ghost acctStops mathint = 0
+//@   ghost acctStarts mathint = 0
+//@   ghost queuedStops mathint = 0
+//@   ghost queuedStarts mathint = 0
+//@   ghost queuedOther mathint = 0
+//@   ghost fsRemoves mathint = 0
+//@   ghost fsWrites mathint = 0
+//@   ghost persists mathint = 0
+// recovery only stops: no Start, no Interim, nothing (re)persisted
+//@   ensures acctStarts == 0 && queuedStarts == 0 && queuedOther == 0 && fsWrites == 0 && persists == 0
+//@   ensures queuedStops <= acctStops
+//@   modifies *
+
+// the merge of pending.json keeps the queue well-formed: only validated records are filed
+//@ loop AccountingManager.recoverOrphanedSessions#2
+//@   invariant am.pendkey
+
+//@ loop AccountingManager.recoverOrphanedSessions#1
+//@   invariant am.client != nil
+//@   invariant acctStarts == 0 && queuedStarts == 0 && queuedOther == 0 && fsWrites == 0 && persists == 0
+//@   invariant queuedStops <= acctStops
+// at most one Stop and one removal per persisted file
+//@   iteration acctStops == iter(acctStops) || acctStops == iter(acctStops) + 1
+//@   iteration fsRemoves == iter(fsRemoves) || fsRemoves == iter(fsRemoves) + 1
+// the Stop is accepted by the server or queued
+//@   iteration acctStops == iter(acctStops) + 1 ==> (queuedStops == iter(queuedStops) && rad_sent_count() == iter(rad_sent_count()) + 1 && sentInt(40, 2)) || queuedStops == iter(queuedStops) + 1
+// a session whose Stop was issued is consumed (no second Stop on the next start) ...
+//@   iteration acctStops == iter(acctStops) + 1 ==> fsRemoves == iter(fsRemoves) + 1
+// ... and a persisted session is consumed ONLY with its Stop issued (a file that is left in place is
+// found again on the next start)
+//@   iteration fsRemoves == iter(fsRemoves) + 1 ==> acctStops == iter(acctStops) + 1
+
+// ---- graceful shutdown ----
+// drainAllSessions starts one goroutine per session (closure with a parameter, WaitGroup, select on
+// a done channel / the shutdown context): out of reach of the sequential model. Frame only; what is
+// checked is that the drain itself never starts, persists or removes anything (the Stops are issued
+// by sendAccountingStopSync, contract above). The persisted copies are deliberately left in place:
+// a graceful stop is one more crash point, recovery on the next start stops the sessions (again).
+//@ func (am *AccountingManager) drainAllSessions
+//@   requires am.client != nil
+//@   ghost acctStarts mathint = 0
+//@   ghost queuedStarts mathint = 0
+//@   ghost persists mathint = 0
+//@   ghost unpersists mathint = 0
+//@   ensures acctStarts == 0 && queuedStarts == 0 && persists == 0 && unpersists == 0
+//@   modifies *
+
+//@ loop AccountingManager.drainAllSessions#1
+//@   invariant am.sesskey
+//@   invariant forall i int :: 0 <= i < len(sessions) ==> sessions[i] != nil
+
+// interim updates are outside the clauses decided here (see Undecided): frame-only, body not verified
+//@ func (am *AccountingManager) sendInterimUpdate
+//@   trusted interim updates are not covered by the accounting-manager contracts
+//@   modifies *
